@@ -254,5 +254,27 @@ def run(ctx):
         ctx.fail('C07.R8', f.key, f.site, f.message)
     if not _lifted_C07_R8:
         ctx.ok('C07.R8', 'lifted from C10', 'process_request is synchronised by a wrapper that holds the lock around exactly one call and is what the decorator returns')
+    # ---------------- C07.R9 (lifted from C09)
+    ctx.rule('C07.R9', "what Destroy committed and which identifiers were issued survive a restart (lifted from C09.R3/R4/R5): the store is opened the same way by every start (schema creation is unconditional and idempotent, the connection stays in the driver's transactional mode) and nothing in the server or the object layer deletes, renames or truncates files - a removed journal / write-ahead log rolls committed Destroys back and rewinds the identifier counter, so a destroyed identifier would come back to life or be issued again")
+    from ..report import Ctx as _LCtx_C07_R9
+    from . import c09 as _lsrc_C07_R9
+    _sub_C07_R9 = _LCtx_C07_R9('C09', 'quick', ctx.src, 0)
+    _run_lifted(ctx, _lsrc_C07_R9, _sub_C07_R9)
+    _lifted_C07_R9 = [f for f in _sub_C07_R9.findings if f.rule in ('C09.R4', 'C09.R5') or (f.rule == 'C09.R3' and 'schema' in f.key or f.rule == 'C09.R3' and 'sessions-bound' in f.key)]
+    for f in _lifted_C07_R9:
+        ctx.fail('C07.R9', f.key, f.site, f.message)
+    if not _lifted_C07_R9:
+        ctx.ok('C07.R9', 'lifted from C09', 'the store is opened transactionally and idempotently; no file of the store is removed')
+    # ---------------- C07.R10 (lifted from C03)
+    ctx.rule('C07.R10', "every load by identifier asks the store: the object the access-control choke point (and the lister) hands out is the result of the query by identifier executed in that very call (lifted from C03.R4 object-is-the-requested-one, C03.R1 data-session use): an object remembered from an earlier load - a memo in the session, a cache on the engine - would keep answering Get / GetAttributes / Destroy for an identifier that a Destroy in between has removed")
+    from ..report import Ctx as _LCtx_C07_R10
+    from . import c03 as _lsrc_C07_R10
+    _sub_C07_R10 = _LCtx_C07_R10('C03', 'quick', ctx.src, 0)
+    _run_lifted(ctx, _lsrc_C07_R10, _sub_C07_R10)
+    _lifted_C07_R10 = [f for f in _sub_C07_R10.findings if (f.rule == 'C03.R4' and 'object-is-the-requested-one' in f.key) or (f.rule == 'C03.R1' and '_data_session-escapes' in f.key)]
+    for f in _lifted_C07_R10:
+        ctx.fail('C07.R10', f.key, f.site, f.message)
+    if not _lifted_C07_R10:
+        ctx.ok('C07.R10', 'lifted from C03', 'the choke point returns the row its own query found')
     ctx.not_decided += ['SQLite AUTOINCREMENT never reusing a rowid, also across restarts (trusted)', 'identifier behaviour when the process is killed between add() and commit() (C09)']
     ctx.assumptions += ['joined-table inheritance deletes/owns subclass rows through the base row (passive deletes / foreign keys)']
